@@ -21,6 +21,10 @@ CHECKS = {
  'C10': dict(sec='3/C10', tech='TLC enumeration of Interactions.tla (frames over a concatenation-adversarial alphabet, sampler with persistent counter) + replay into the real compute_combined_features',
              text='Interactions.tla specifies the interaction feature by its kernel (equal iff all constituents equal), its name, the candidate space and the least-evaluated-first selection; TLC enumerates every frame of a bounded space and each state (two consecutive batches) is replayed into the real function: partitions, names, selection, untouched originals and score equality with the explicit tuple are compared; the KeyByConcatenation deviation shows the model separates aliasing keys.',
              note='bounded frames (<=4 feature columns, <=3 rows, alphabet "", "1", "11", "a", "1a" under several character maps); 64-bit collisions out of reach'),
+
+ 'C07': dict(sec='3/C07', tech='TLC on Sampler.tla with a normalising VIEW (all histories of any length) + behaviours replayed into the real prior_combinations_sample + SamplerTrace validation of recorded pipeline runs',
+             text='Sampler.tla models the process-global evaluation counter and one action per sampler call; Fair, ExactlyCap, LeastFirst, CountsArePicks are model-checked for every history (the VIEW subtracts the minimum count, making the unbounded counter finite), two-client and duplicate-key lists included; every behaviour of 3-4 calls is replayed through the real function comparing returned list and whole counter; sampler calls recorded in real multi-batch runs (both call sites, caps below/above the list) are validated by SamplerTrace.tla, which also checks the reported counts per combination.',
+             note='list sizes <= 7, caps <= size+1; recorded runs use 6-20 batches of 40 rows; negative control: reversed returned list is rejected'),
 }
 
 checks = []
